@@ -358,6 +358,17 @@ def check_results(c, item):
             if what == 'DelaySSAResult':
                 a.append(drain_queue(r.py_get_delay_queue(), 3, len(TIMES)))
                 b.append(drain_queue(r2.py_get_delay_queue(), 3, len(TIMES)))
+        elif what == 'ArrayDelayQueue-advanced-empty':
+            # a queue that was used (advanced past the wrap-around) and is empty when it is copied: its clock and ring position survive;
+            # what is added to the copy afterwards is delivered when it would have been in the original
+            q = ArrayDelayQueue.setup_queue(2, 3, 0.5)
+            q.py_add_reaction(0.5, 1, 2.0)
+            for _ in range(7):
+                q.py_advance_time()
+            q2 = cp(q)
+            for qq_ in (q, q2):
+                qq_.py_add_reaction(qq_.py_get_next_queue_time() + 0.5, 0, 3.0); qq_.py_add_reaction(qq_.py_get_next_queue_time() + 1.0, 1, 4.0)
+            a, b = drain_queue(q, 2, 3), drain_queue(q2, 2, 3)
         elif what in ('ArrayDelayQueue', 'ArrayDelayQueue-advanced'):
             q = ArrayDelayQueue.setup_queue(3, 4, 0.5)
             q.py_add_reaction(1.0, 0, 3.0); q.py_add_reaction(2.0, 1, 5.0); q.py_add_reaction(1.5, 2, 2.0)
@@ -483,7 +494,7 @@ def run(ctx):
             items.append(('lineage', name, h))
     pmap(check_model, items, ctx, nshards=256)
     res = [(w, how) for w in ('SSAResult', 'VolumeSSAResult', 'DelaySSAResult', 'DeterministicResult', 'VolumeCellState', 'DelayVolumeCellState',
-                              'LineageVolumeCellState', 'LineageVolumeCellState-time0', 'LineageVolumeCellState-dead', 'ArrayDelayQueue', 'ArrayDelayQueue-advanced', 'Schnitz', 'Lineage', 'ExperimentalLineage', 'SimulatedLineage') for how in ('pickle', 'deepcopy')]
+                              'LineageVolumeCellState', 'LineageVolumeCellState-time0', 'LineageVolumeCellState-dead', 'ArrayDelayQueue', 'ArrayDelayQueue-advanced', 'ArrayDelayQueue-advanced-empty', 'Schnitz', 'Lineage', 'ExperimentalLineage', 'SimulatedLineage') for how in ('pickle', 'deepcopy')]
     pmap(check_results, res, ctx, nshards=len(res))
     ctx.bounds = dict(history_length=L, plain_models=len(plain), lineage_models=len(lin), histories=len(hists), cases=len(items), result_objects=len(res))
     ctx.rule = ('E2+E3: one plain model per member type (every propensity class, two general rates that together contain every Term node class, '
